@@ -684,3 +684,66 @@ def mixin_table():
 
     install_fake_tqdm()
     return {'alias': AliasMixin, 'tracer': TracerMixin, 'pandas': PandasIndexFeaturesMixin, 'progress': ProgressBarMixin}
+
+
+# ----------------------------------------------------------------------------
+# parser-built workload models: one checked route from script to class
+
+ALL_PROPS = ['C02', 'C04', 'C05', 'C06', 'C08', 'C09', 'C10', 'C11', 'C12', 'C17', 'C18']
+
+
+def build_options(rng, prog, allow_shorter=False):
+    """Seeded options for build_model (the defaults most of the time)."""
+    r = rng.random()
+    if r < 0.7:
+        return {}
+    if r < 0.82:
+        return {'with_type_hints': False}
+    if r < 0.88:
+        return {'min_lags': rng.choice([0, 1, prog['lags'] + 1]), 'min_leads': rng.choice([0, 1, prog['leads'] + 1])}
+    if r < 0.94:
+        return {'lags': prog['lags'] + rng.choice([0, 1, 2]), 'leads': prog['leads'] + rng.choice([0, 0, 1])}
+    if allow_shorter:
+        return {rng.choice(['lags', 'leads']): 0}  # imposed, also where the script itself looks further
+    return {'with_type_hints': False, 'min_lags': prog['lags']}
+
+
+def expected_lags_leads(prog_lags, prog_leads, opts):
+    lags = opts['lags'] if 'lags' in opts else max(prog_lags, opts.get('min_lags', 0))
+    leads = opts['leads'] if 'leads' in opts else max(prog_leads, opts.get('min_leads', 0))
+    return lags, leads
+
+
+def build_parser_class(fsic, model, ctx, who='model'):
+    """parse_model + build_model for a workload script (model: script, names, endo, lags, leads, [declared, build]).
+
+    The scripts come from the workload's own generator and lie inside the documented syntax: one that does not build, or a
+    class whose variables / lag and lead lengths are not the script's, cannot satisfy any of the claimed properties ("for
+    every model ..."), so that is a discrepancy for whichever check is running - not a run to skip. Returns None then."""
+    opts = dict(model.get('build') or {})
+
+    def flag(sig, detail):
+        for prop in ALL_PROPS:
+            ctx.check(prop, sig, False, detail)
+
+    try:
+        cls = fsic.build_model(fsic.parse_model(model['script']), **opts)
+    except Exception as e:
+        flag('parser-built-model/does-not-build', {'exc': type(e).__name__, 'msg': str(e)[:160], 'script': model['script'][:300], 'options': opts})
+        return None
+    if opts:
+        ctx.probe('build-options:' + '+'.join(sorted(opts)))
+    if set(cls.NAMES) != set(model['names']):
+        flag('parser-built-model/variables-are-not-the-scripts', {'class': sorted(cls.NAMES), 'script-names': sorted(model['names']), 'script': model['script'][:300]})
+        return None
+    if set(cls.ENDOGENOUS) != set(model['endo']):
+        flag('parser-built-model/endogenous-are-not-the-left-hand-sides', {'class': sorted(cls.ENDOGENOUS), 'left-hand-sides': sorted(model['endo']), 'script': model['script'][:300]})
+        return None
+    want = expected_lags_leads(model['lags_script'] if 'lags_script' in model else model['lags'], model['leads_script'] if 'leads_script' in model else model['leads'], opts)
+    if (cls.LAGS, cls.LEADS) != want:
+        flag('parser-built-model/lag-and-lead-lengths', {'class': [cls.LAGS, cls.LEADS], 'want': list(want), 'options': opts, 'script': model['script'][:300]})
+        return None
+    if model.get('declared') is not None:
+        # (C09: `values` is the stack of the variables in declaration order)
+        ctx.check('C09', 'parser-built-model/names-in-declaration-order', list(cls.NAMES) == list(model['declared']), {'class': list(cls.NAMES), 'declared': list(model['declared'])})
+    return cls
